@@ -255,20 +255,11 @@ func genC15(rng *hx.Rng, n int, tier string, emit func(hx.Input)) {
 					keepDeeper = true
 				}
 				lastDepth[h] = o.d
-				if malformed && rng.Chance(0.2) {
-					switch rng.Intn(5) {
-					case 0:
-						o.d = rng.Range(-128, 127)
-					case 1:
-						o.ply = rng.Range(-128, 127)
-					case 2:
-						o.typ = rng.Range(3, 255)
-					case 3:
-						o.v = rng.Range(-32768, 32767)
-					default:
-						o.gen = rng.Range(-3, 300)
-					}
-				}
+				// (stores with depth / ply / bound type / generation outside their types' documented ranges were
+				// generated here until the second batch of false-alarm probes: the property and the theorems are
+				// about depth 0..63, ply 0..63, the three bound types and byte generations; how a table packs
+				// out-of-range arguments is not constrained, and a harmless repacking of the depth/type byte
+				// disagreed with the exact model on exactly those cases)
 			case r < 90:
 				o.kind = 1
 				if rng.Chance(0.1) {
